@@ -46,7 +46,10 @@ RULE = ("random rule systems of the engine generator (harness/rules.py: int/floa
         "set_input repeated on the same variable and stored period before/after the move, eternal variables given "
         "dated periods), 'delete' (delete_arrays with periods inside / over / across the stored ones, memory vs disk), "
         "'chain' (a last_month spiral pair under a top variable that raises after the spiral was walked, then "
-        "further requests at the same period, across store settings); "
+        "further requests at the same period, across store settings), 'eternal' (eternal variables with both an "
+        "input and a formula, calculated at dated periods, memory vs disk with/without priority), 'enum' (oracle "
+        "only, no engine model: Enum variables over 130-200 members, inputs/defaults/results with indices >= 128, "
+        "every request repeated, all configurations, answers also compared with the program's meaning); "
         "a case is non-trivial when a formula ran and at least one non-plain configuration skipped a store, used the "
         "disk or recorded a trace node with children; distinct by JSON text")
 TRUSTED = ["harness/rules.py: compiler from rule-system terms to real Variable subclasses (formulas call the public API)",
@@ -100,12 +103,14 @@ def cfg_family(rng, n):
 
 
 def gen_one(rng, k):
-    stream = {6: "spiral", 3: "mutating", 1: "threshold", 5: "delete", 8: "chain"}.get(k % 9, "claimed")
+    stream = {6: "spiral", 3: "mutating", 1: "threshold", 5: "delete", 8: "chain", 7: "eternal"}.get(k % 9, "claimed")
+    if k % 18 == 4:
+        return enum_case(rng)
     case = rules.gen_case(rng, SPIRAL_PROFILE if stream == "spiral" else PROFILE)
     case.pop("cfg", None)
     sys, reqs = case["sys"], case["requests"]
     n = len(sys["vars"])
-    if stream != "spiral":
+    if stream not in ("spiral", "eternal"):
         # `ranked` of the model wants eternal variables without formula (their value would be
         # the one of the first period asked): keep a few, make the others plain inputs
         for v in sys["vars"]:
@@ -140,6 +145,8 @@ def gen_one(rng, k):
         return threshold_case(rng, case)
     if stream == "delete":
         return delete_case(rng, case)
+    if stream == "eternal":
+        return eternal_case(rng, case)
     if stream == "chain":
         return chain_case(rng, case)
     fam = cfg_family(rng, n)
@@ -320,6 +327,230 @@ def chain_case(rng, case):
     return case
 
 
+def eternal_case(rng, case):
+    """Eternal variables that have BOTH a formula and an input: the input is set first (under the
+    eternity period or a dated one - same store key) and must win whenever the variable is then
+    calculated, directly or through a reader, at dated periods; stores in memory or on disk, with
+    and without the variable among the priority variables."""
+    sys, pop = case["sys"], case["pop"]
+    vs = sys["vars"]
+    n0 = len(vs)
+    e, r = n0, n0 + 1
+    ety = rng.choice(["int", "float", "bool"])
+    fe = ["const", rng.randint(-6, 12)]
+    eternal_inputs = [i for i in range(n0) if vs[i]["unit"] == "eternity" and not vs[i]["formulas"]
+                      and vs[i]["ent"] == "person"]
+    if eternal_inputs and rng.random() < 0.5:
+        fe = ["bin", "add", fe, ["dep", rng.choice(eternal_inputs), "same", "plain"]]
+    vs.append({"ent": "person", "type": ety, "unit": "eternity", "end": None, "default": 0, "neutral": False,
+               "formulas": [[[1, 1, 1], fe]] + ([[[2018, 1, 1], ["const", 3]]] if rng.random() < 0.4 else [])})
+    vs.append({"ent": "person", "type": "int", "unit": rng.choice(["month", "year"]), "end": None, "default": 0,
+               "neutral": False,
+               "formulas": [[[1, 1, 1], ["bin", "add", ["dep", e, "same", "plain"], ["const", rng.randint(1, 9)]]]]})
+    sets = [q for q in case["requests"] if q[0] == "set"]
+    rest = [q for q in case["requests"] if q[0] not in ("set", "delete")]
+    reqs = list(sets)
+    year = rng.choice(rules.BASE_YEARS)
+    with_formula = [i for i, v in enumerate(vs) if v["unit"] == "eternity" and v["formulas"]]
+    for i in with_formula:          # every eternal variable with a formula gets its input first
+        p = rng.choice([list(rules.ETERNITY), rules.gen_period(rng, rng.choice(["month", "year", "day"]), year=year)])
+        reqs.append(["set", i, p, rules.input_values(rng, vs[i], rules.count_for(pop, vs[i]))])
+    mid = []
+    for _ in range(rng.randint(2, 4)):
+        mid.append([rng.choice(["calc", "calc", "get"]), e,
+                    rng.choice([rules.gen_period(rng, rng.choice(["month", "year", "day", "week"]), year=year),
+                                list(rules.ETERNITY)])])
+    for _ in range(rng.randint(1, 2)):
+        mid.append(["calc", r, rules.gen_period(rng, vs[r]["unit"], year=year)])
+    mid += rest
+    rng.shuffle(mid)
+    case["requests"] = reqs + mid
+    n = len(vs)
+    others = [i for i in range(n) if i != e]
+    case["cfgs"] = [{}, {"disk": True}, {"disk": True, "priority": [e]},
+                    {"disk": True, "priority": [i for i in others if rng.random() < 0.4] or [r]},
+                    {"disk": True, "trace": True, "drop": [r]},
+                    {"blacklist": [e, r], "opt_out": True}]
+    case["stream"] = "eternal"
+    return case
+
+
+# ---------------------------------------------------------------------------------------
+# oracle-only stream: Enum-valued variables over a large enumeration (no engine model: CSkip17)
+# ---------------------------------------------------------------------------------------
+
+ENUM_VARS = ["code", "e_in", "e_f", "e_g", "e_h", "reader", "idx"]
+
+
+def enum_case(rng):
+    """Program (fixed shape, random sizes and data): code (int input); e_in (Enum input, default member
+    D); e_f = member number code % N, returned as names; e_g = e_in passed through; e_h = member number
+    (code + 1) % N, returned as indices; reader = 100 * (e_f == T1) + 10 * (e_g == T2) + (e_h == T1);
+    idx = index of e_f as int.  N in 130..200, so indices >= 128 occur as inputs, defaults and results."""
+    n = rng.randint(130, 200)
+    count = rng.randint(1, 5)
+    unit = rng.choice(["year", "month"])
+    ps = [f"{y}" if unit == "year" else f"{y}-{m:02d}" for y in (2019, 2020) for m in ((1,) if unit == "year" else (1, 7))]
+    ps = rng.sample(ps, rng.randint(1, len(ps)))
+    big = lambda: rng.choice([rng.randrange(128, n), rng.randrange(128, n), n - 1, 128, 127, rng.randrange(n)])  # noqa: E731
+    codes = {p: [big() + rng.choice([0, 0, n]) for _ in range(count)] for p in ps if rng.random() < 0.9}
+    e_in = {p: [big() for _ in range(count)] for p in ps if rng.random() < 0.7}
+    t1 = rng.choice([x % n for c in codes.values() for x in c] or [130 % n])
+    t2 = rng.choice([x for c in e_in.values() for x in c] or [129])
+    reqs = []
+    for p in ps:
+        block = [[v, p] for v in rng.sample(ENUM_VARS[1:], rng.randint(3, 6))]
+        reqs += block + rng.sample(block, rng.randint(1, len(block)))      # asked again: served by the holder
+    names = ENUM_VARS[1:]
+    some = lambda pr: [v for v in names if rng.random() < pr] or [rng.choice(names)]  # noqa: E731
+    cfgs = [{}, {"trace": True}, {"disk": True}, {"disk": True, "priority": some(0.4)}, {"drop": some(0.4)},
+            {"drop": ["e_f", "e_h"]}, {"blacklist": some(0.5), "opt_out": True}, {"blacklist": some(0.5)},
+            {"trace": True, "disk": True, "drop": some(0.3), "blacklist": some(0.3), "opt_out": True}]
+    return {"kind": "enum", "stream": "enum", "n": n, "count": count, "unit": unit, "default": big(),
+            "codes": codes, "e_in": e_in, "by_name": rng.random() < 0.5, "t1": t1, "t2": t2,
+            "requests": reqs, "cfgs": cfgs, "sys": {"vars": []}, "pop": {}}
+
+
+_ENUMS = {}
+
+
+def _enum(n):
+    from openfisca_core import indexed_enums
+    if n not in _ENUMS:
+        _ENUMS[n] = indexed_enums.Enum(f"Big{n}", [(f"m{i:03d}", f"member {i}") for i in range(n)])
+    return _ENUMS[n]
+
+
+def enum_system(case):
+    from openfisca_core import indexed_enums
+    from openfisca_core.entities import build_entity
+    from openfisca_core.taxbenefitsystems import TaxBenefitSystem
+    from openfisca_core.variables import Variable
+    n, E = case["n"], _enum(case["n"])
+    members = list(E)
+    unit = rules.UNIT_OBJ[case["unit"]]
+    person = build_entity(key="person", plural="persons", label="", is_person=True)
+    t1, t2 = members[case["t1"]], members[case["t2"]]
+
+    def f_e_f(person, period):
+        return numpy.array([f"m{int(c) % n:03d}" for c in person("code", period)])
+
+    def f_e_g(person, period):
+        return person("e_in", period)
+
+    def f_e_h(person, period):
+        return (person("code", period) + 1) % n
+
+    def f_reader(person, period):
+        return ((person("e_f", period) == t1) * 100.0 + (person("e_g", period) == t2) * 10.0
+                + (person("e_h", period) == t1) * 1.0)
+
+    def f_idx(person, period):
+        return numpy.array([int(x[1:]) for x in person("e_f", period).decode_to_str()])
+
+    common_ = {"entity": person, "definition_period": unit}
+    enum_ = dict(common_, value_type=indexed_enums.Enum, possible_values=E, default_value=members[case["default"]])
+    specs = {"code": dict(common_, value_type=int), "e_in": dict(enum_), "e_f": dict(enum_, formula=f_e_f),
+             "e_g": dict(enum_, formula=f_e_g), "e_h": dict(enum_, formula=f_e_h),
+             "reader": dict(common_, value_type=float, formula=f_reader), "idx": dict(common_, value_type=int, formula=f_idx)}
+    tbs = TaxBenefitSystem([person])
+    for name in ENUM_VARS:
+        tbs.add_variable(type(name, (Variable,), specs[name]))
+    return tbs
+
+
+def enum_expected(case, var, p):
+    n, cnt = case["n"], case["count"]
+    code = case["codes"].get(p, [0] * cnt)
+    ein = case["e_in"].get(p, [case["default"]] * cnt)
+    ef = [c % n for c in code]
+    eh = [(c + 1) % n for c in code]
+    if var == "e_in" or var == "e_g":
+        return ein
+    if var == "e_f" or var == "idx":
+        return ef
+    if var == "e_h":
+        return eh
+    if var == "reader":
+        return [100 * (a == case["t1"]) + 10 * (b == case["t2"]) + (c == case["t1"]) for a, b, c in zip(ef, ein, eh)]
+    return code
+
+
+def run_enum_cfg(case, cfg):
+    from openfisca_core.experimental import MemoryConfig
+    from openfisca_core.simulations import SimulationBuilder
+    tbs = enum_system(case)
+    sim = SimulationBuilder().build_default_simulation(tbs, count=case["count"])
+    if cfg.get("disk") or cfg.get("drop"):
+        sim.memory_config = MemoryConfig(max_memory_occupation=0 if cfg.get("disk") else 1,
+                                         priority_variables=cfg.get("priority", []),
+                                         variables_to_drop=cfg.get("drop", []))
+        if not cfg.get("disk"):
+            sim.memory_config.max_memory_occupation_pc = 1000
+    if cfg.get("blacklist"):
+        tbs.cache_blacklist = set(cfg["blacklist"])
+    if cfg.get("opt_out"):
+        sim.opt_out_cache = True
+    if cfg.get("trace"):
+        sim.trace = True
+    try:
+        for p, c in case["codes"].items():
+            sim.set_input("code", p, numpy.array(c))
+        for p, idxs in case["e_in"].items():
+            sim.set_input("e_in", p, numpy.array([f"m{i:03d}" for i in idxs]) if case["by_name"] else numpy.array(idxs))
+        answers = []
+        for var, p in case["requests"]:
+            try:
+                a = sim.calculate(var, p)
+                if hasattr(a, "decode_to_str"):
+                    a = [int(x[1:]) for x in a.decode_to_str()]
+                else:
+                    a = [int(x) for x in numpy.asarray(a).tolist()]
+            except Exception as ex:  # noqa: BLE001
+                a = Err(errkind(ex), f"{type(ex).__name__}: {ex}"[:200])
+            answers.append([a, len(sim.tracer.stack)])
+        traced = None
+        if cfg.get("trace"):
+            # the values the trace holds for the requested nodes, in order of the trees
+            traced = []
+            for node in sim.tracer.trees:
+                v = node.value
+                traced.append([str(node.name), str(node.period),
+                               None if v is None else ([int(x[1:]) for x in v.decode_to_str()] if hasattr(v, "decode_to_str")
+                                                       else [int(x) for x in numpy.asarray(v).tolist()])])
+        return {"cfg": cfg, "answers": answers, "traced": traced}
+    finally:
+        d = getattr(sim, "_data_storage_dir", None)
+        if d:
+            for pop_ in sim.populations.values():
+                for h in pop_._holders.values():
+                    if h._disk_storage:
+                        h._disk_storage.preserve_storage_dir = True
+            shutil.rmtree(d, ignore_errors=True)
+
+
+def enum_oracle(case, obs):
+    runs = obs["enum"]
+    plain = runs[0]
+    for run in runs:
+        for k, ((var, p), (a, depth)) in enumerate(zip(case["requests"], run["answers"])):
+            if depth != 0:
+                return f"stack: evaluation stack not empty after request {k} {var} {p} under {run['cfg']}: depth {depth}"
+            want = enum_expected(case, var, p)
+            if a != want:
+                return (f"enum-value: request {k} {var}<{p}> gives {a!r} under {run['cfg']}; the program's meaning is "
+                        f"{want} (enumeration of {case['n']} members)")
+            if not same_answer(a, plain["answers"][k][0]):
+                return f"answers: request {k} {var}<{p}> gives {a!r} under {run['cfg']} and {plain['answers'][k][0]!r} under the plain configuration"
+        if run["traced"] is not None:
+            if len(run["traced"]) != len(case["requests"]):
+                return f"trace: {len(run['traced'])} trees for {len(case['requests'])} requests under {run['cfg']}"
+            for (name, per, val), (var, p), (a, _d) in zip(run["traced"], case["requests"], run["answers"]):
+                if name != var or val != (None if isinstance(a, Err) else a):
+                    return f"trace: tree {name}<{per}> holds {val}, the request {var}<{p}> returned {a!r} under {run['cfg']}"
+    return None
+
+
 def generate(rng, tier):
     n = {"quick": 320, "escalated": 800, "thorough": 5000}[tier]
     return [gen_one(rng, k) for k in range(n)]
@@ -491,6 +722,8 @@ def run_cfg(case, cfg):
 def run_impl(case):
     with warnings.catch_warnings():
         warnings.simplefilter("ignore")
+        if case.get("kind") == "enum":
+            return {"enum": [run_enum_cfg(case, cfg) for cfg in case["cfgs"]]}
         try:
             return {"runs": [run_cfg(case, cfg) for cfg in case["cfgs"]]}
         except rules.Inexact:
@@ -503,7 +736,7 @@ def run_impl(case):
 # ---------------------------------------------------------------------------------------
 
 def coq_case(case):
-    if _key(case) in _SKIP:
+    if _key(case) in _SKIP or case.get("kind") == "enum":
         return "CSkip17"
     n = len(case["sys"]["vars"])
     cfgs = clist([f"({cbool(c.get('trace'))}, {clist([cbool(rules.nostore(c, i)) for i in range(n)])})"
@@ -533,6 +766,8 @@ def obs_for_coq(case, obs):
     keys of the trees that print to them (a text that no node prints to is kept and never matches)"""
     if obs == "skip" or isinstance(obs, Err):
         return obs
+    if case.get("kind") == "enum":
+        return "skip"            # no engine model for Enum values: oracle only
     out = []
     for run in obs["runs"]:
         if run["cfg"].get("trace"):
@@ -602,8 +837,23 @@ def chain_ok(case):
     return True
 
 
+def inputs_shadow_eternal_formulas(case):
+    """ranked but for eternal variables with a formula, each of which gets an input before the first
+    calculation (and claimed_invariance refuses deletions): their formulas never run, the input wins"""
+    sys = case["sys"]
+    if not rules.is_ranked(sys):
+        return False
+    need = {i for i, v in enumerate(sys["vars"]) if v["unit"] == "eternity" and v["formulas"]}
+    for r in case["requests"]:
+        if r[0] == "set" and not sys["vars"][r[1]].get("neutral") and len(r[3]) == rules.count_for(case["pop"], sys["vars"][r[1]]):
+            need.discard(r[1])
+        if r[0] in ("calc", "add", "div", "get"):
+            break
+    return not need
+
+
 def claimed_invariance(case):
-    if not model_ranked(case["sys"]) and not chain_ok(case):
+    if not model_ranked(case["sys"]) and not chain_ok(case) and not inputs_shadow_eternal_formulas(case):
         return False
     seen_calc = False
     for r in case["requests"]:
@@ -728,6 +978,8 @@ def oracle(case, obs):
         return None
     if isinstance(obs, Err):
         return f"driver: the case could not be run: {obs.kind} {obs.msg}"
+    if case.get("kind") == "enum":
+        return enum_oracle(case, obs)
     runs = obs["runs"]
     plain = runs[0]
     nvars = len(case["sys"]["vars"])
@@ -787,6 +1039,8 @@ def oracle(case, obs):
 def nontrivial(case, obs):
     if obs == "skip" or isinstance(obs, Err):
         return False
+    if case.get("kind") == "enum":
+        return any(isinstance(a, list) and any(x >= 128 for x in a) for a, _ in obs["enum"][0]["answers"])
     runs = obs["runs"]
     formula_ran = any(t["children"] or t["reads"] for t in runs[0]["recorded"]) or any(
         len(o[2]) > sum(1 for r in case["requests"] if r[0] == "set") for o in runs[0]["reqs"])
@@ -807,6 +1061,8 @@ def classify(case, obs):
         return "skipped-inexact"
     if isinstance(obs, Err):
         return "driver-error"
+    if case.get("kind") == "enum":
+        return "enum (oracle only)"
     kinds = sorted({o[0].kind for o in obs["runs"][0]["reqs"] if isinstance(o[0], Err)})
     tag = case.get("stream", "?") + ("" if rules.is_ranked(case["sys"]) else "/self-dependent") + (
         "" if model_ranked(case["sys"]) or not rules.is_ranked(case["sys"]) else "/eternal-formula")
